@@ -631,6 +631,8 @@ def replay_graph(ctx, p: Program, graph: tlc.Graph, *, seed=0, max_steps=None, f
                 d = diff(spec_view(graph.nodes[dst]), {x: got[x] for x in COMPARE})
                 if "_extra" in got:
                     d["_extra"] = got["_extra"]
+                if impl.w.crashes:
+                    d["_crash"] = {"exception": impl.w.crashes[-1].reason}
                 if d:
                     mism.append(dict(path=list(path), label=lab, diff=d))
                     break
@@ -729,7 +731,9 @@ def run_property(ctx, pid, invariants, properties, quick_programs, thorough_prog
             keys = sorted(m["diff"])
             touched = sorted({k.split(".")[0] for k in keys})
             act = tlc.parse_action_label(m["label"])[0] if m["label"] not in ("<init>", "Compact") else m["label"].strip("<>")
-            if foot & set(touched) or "_extra" in touched:
+            if "_crash" in touched:
+                ctx.violation(f"crash:{act}:{m['diff']['_crash']['exception'].split(':')[0]}", {"program": n, "path": m["path"], "diff": m["diff"]})
+            elif foot & set(touched) or "_extra" in touched:
                 ctx.violation(f"replay:{act}:{','.join(t for t in touched if t in foot or t == '_extra')}",
                               {"program": n, "path": m["path"], "diff": m["diff"]})
             else:
